@@ -116,6 +116,10 @@ theorem applyRule2_rsim (C : Ufunc.Ctx K) (hb : UeqBlind C) (r : Rule) {a0 b0 a1
   case passthrough => simp [Except.map, stripP, noCanon_of_rsim h0]
   case multiply => rw [mul_rsim h0 h1]
   case divide => rw [div_rsim h0 h1]
+  case floorDivide => rw [div_rsim h0 h1]
+
+/-- two operands that the dispatcher cannot tell apart except through their units -/
+def OpSim (i j : Operand K) : Prop := i.hasNoUnits = j.hasNoUnits ∧ i.isUnyt = j.isUnyt ∧ i.data = j.data
 
 /-- the verdicts of the dimension check are related -/
 def CheckSim : Check K → Check K → Prop
@@ -125,8 +129,7 @@ def CheckSim : Check K → Check K → Prop
   | _, _ => False
 
 theorem commensurate_rsim (C : Ufunc.Ctx K) (hb : UeqBlind C) (rule : Rule) (f : String)
-    (i0 j0 i1 j1 : Operand K) (hi0 : i0.isUnyt = j0.isUnyt ∧ i0.data = j0.data)
-    (hi1 : i1.isUnyt = j1.isUnyt ∧ i1.data = j1.data)
+    (i0 j0 i1 j1 : Operand K) (hi0 : OpSim i0 j0) (hi1 : OpSim i1 j1)
     {a0 b0 a1 b1 : UnitR K} (h0 : RSim a0 b0) (h1 : RSim a1 b1) :
     CheckSim (commensurate C rule f i0 i1 a0 a1) (commensurate C rule f j0 j1 b0 b1) := by
   simp only [commensurate, ueq_rsim C hb h0 h1]
@@ -134,14 +137,12 @@ theorem commensurate_rsim (C : Ufunc.Ctx K) (hb : UeqBlind C) (rule : Rule) (f :
   · exact ⟨h0, h1, rfl⟩
   · -- the zero exception picks the same side on both
     have hz : RSim (adoptZero i0 i1 a0 a1).1 (adoptZero j0 j1 b0 b1).1 ∧ RSim (adoptZero i0 i1 a0 a1).2 (adoptZero j0 j1 b0 b1).2 := by
-      simp only [adoptZero, hi0.1, hi0.2, hi1.1, hi1.2]
+      simp only [adoptZero, hi0.1, hi0.2.2, hi1.1, hi1.2.2]
       split
+      · exact ⟨h1, h1⟩
       · split
-        · exact ⟨h1, h1⟩
-        · split
-          · exact ⟨h0, h0⟩
-          · exact ⟨h0, h1⟩
-      · exact ⟨h0, h1⟩
+        · exact ⟨h0, h0⟩
+        · exact ⟨h0, h1⟩
     obtain ⟨z0, z1⟩ := hz
     generalize (adoptZero i0 i1 a0 a1).1 = A0 at z0 ⊢
     generalize (adoptZero i0 i1 a0 a1).2 = A1 at z1 ⊢
@@ -175,13 +176,13 @@ theorem rsim_eta {a b : UnitR K} (h : RSim a b) : a.v = { b.v with canon := a.v.
   simp [hv] at hd ho hs he ⊢
   simp [hd, ho, hs, he]
 
-theorem convertSecond_rsim (C : Ufunc.Ctx K) (d : Data) {a0 b0 a1 b1 : UnitR K}
-    (h0 : RSim a0 b0) (h1 : RSim a1 b1) : convertSecond C a0 a1 d = convertSecond C b0 b1 d := by
-  obtain ⟨r0, _, _, _, _, _⟩ := rsim_facts h0
-  obtain ⟨_, _, o1, _, _, _⟩ := rsim_facts h1
+theorem convertSecond_rsim (C : Ufunc.Ctx K) (rule : Rule) (d : Data) {a0 b0 a1 b1 : UnitR K}
+    (h0 : RSim a0 b0) (h1 : RSim a1 b1) : convertSecond C rule a0 a1 d = convertSecond C rule b0 b1 d := by
+  obtain ⟨r0, _, o0, s0, _, t0, _⟩ := rsim_facts h0
+  obtain ⟨_, _, o1, s1, _, _⟩ := rsim_facts h1
   have hg : getConversionFactor C.pre C.lut a1.v a0.v = getConversionFactor C.pre C.lut b1.v b0.v := by
     rw [rsim_eta h0, rsim_eta h1]; rfl
-  simp only [convertSecond, hg, r0, o1]
+  simp only [convertSecond, hg, r0, o0, o1, s0, s1, t0]
 
 theorem mulDivPost_rsim (rule : Rule) (m : K) {a0 b0 a1 b1 : UnitR K} (h0 : RSim a0 b0) (h1 : RSim a1 b1)
     (ua ub : Option (UnitV K)) (hu : ua.map UnitV.noCanon = ub.map UnitV.noCanon) :
@@ -221,100 +222,177 @@ theorem wrapUp_none_result' (T : Tables) (eff : List (Effect K)) (c : Call K) (h
 /-- the binary path: operands that differ only in identity bits that are never read give the same
     outcome (modulo the bit in the result unit) -/
 theorem stdBinary_rsim (C : Ufunc.Ctx K) (hb : UeqBlind C) (c : Call K) (hc : c.out = .none) (rule : Rule)
-    (i0 j0 i1 j1 : Operand K) (hi0 : i0.isUnyt = j0.isUnyt ∧ i0.data = j0.data)
-    (hi1 : i1.isUnyt = j1.isUnyt ∧ i1.data = j1.data) (hu0 : j0.isUnyt = true)
+    (i0 j0 i1 j1 : Operand K) (hi0 : OpSim i0 j0) (hi1 : OpSim i1 j1) (hu0 : j0.isUnyt = true)
     {a0 b0 a1 b1 : UnitR K} (h0 : RSim a0 b0) (h1 : RSim a1 b1) (eff : List (Effect K)) :
     (stdBinary C c rule i0 i1 (some a0) (some a1) eff).result.map stripO
       = (stdBinary C c rule j0 j1 (some b0) (some b1) eff).result.map stripO := by
   obtain ⟨r0, d0, o0, _, _, t0, _, _, _⟩ := rsim_facts h0
   obtain ⟨r1, d1, o1, _, _, t1, _, _, _⟩ := rsim_facts h1
-  simp only [stdBinary, defaultUnit, t0, o0, o1, r0]
+  simp only [stdBinary, defaultUnit, t0, o0, o1, r0, d0, d1]
   by_cases hkr : (rule == Rule.preserve && isTemperature b0.v && b1.v.offset != 0 && b0.v.offset == 0
       && (b0.repr == "K" || b0.repr == "R")) = true
   · simp only [hkr, if_true]
-  · simp only [hkr, if_false]
-    have hchk : CheckSim (if rule.checked = true then commensurate C rule c.ufunc i0 i1 a0 a1 else Check.pass a0 a1 false)
-        (if rule.checked = true then commensurate C rule c.ufunc j0 j1 b0 b1 else Check.pass b0 b1 false) := by
-      by_cases hck : rule.checked = true
-      · simp only [hck, if_true]; exact commensurate_rsim C hb rule c.ufunc i0 j0 i1 j1 hi0 hi1 h0 h1
-      · simp only [hck, if_false]; exact ⟨h0, h1, rfl⟩
-    revert hchk
-    generalize (if rule.checked = true then commensurate C rule c.ufunc i0 i1 a0 a1 else Check.pass a0 a1 false) = chkA
-    generalize (if rule.checked = true then commensurate C rule c.ufunc j0 j1 b0 b1 else Check.pass b0 b1 false) = chkB
-    intro hchk
-    cases chkA with
-    | refuse => cases chkB <;> simp_all [CheckSim]
-    | early x =>
-      cases chkB with
-      | early y => simp only [CheckSim] at hchk; subst hchk; simp only [hc, Bool.false_eq_true, if_false]
-      | pass _ _ _ => simp [CheckSim] at hchk
-      | refuse => simp [CheckSim] at hchk
-    | pass x0 x1 cv =>
-      cases chkB with
-      | early y => simp [CheckSim] at hchk
-      | refuse => simp [CheckSim] at hchk
-      | pass y0 y1 cv' =>
-        obtain ⟨g0, g1, gc⟩ := hchk
-        subst gc
-        have hcs := convertSecond_rsim C j1.data g0 g1
-        simp only [hi1.2, hcs, Bool.false_eq_true, if_false]
-        cases hcv : (if cv = true then Except.map some (convertSecond C y0 y1 j1.data) else Except.ok none) with
-        | error e => rfl
-        | ok cvo =>
-          simp only
-          have hr := applyRule2_rsim C hb rule g0 g1
-          cases ha : applyRule2 C rule x0 x1 with
-          | error e1 =>
-            cases hbb : applyRule2 C rule y0 y1 with
-            | error e2 => simp [ha, hbb, Except.map] at hr; simp [hr]
-            | ok p2 => simp [ha, hbb, Except.map] at hr
-          | ok p1 =>
-            cases hbb : applyRule2 C rule y0 y1 with
-            | error e2 => simp [ha, hbb, Except.map] at hr
-            | ok p2 =>
-              obtain ⟨m1, ua⟩ := p1
-              obtain ⟨m2, ub⟩ := p2
-              simp only [ha, hbb, Except.map, stripP, Except.ok.injEq, Prod.mk.injEq] at hr
-              obtain ⟨hm, hun⟩ := hr
-              subst hm
-              simp only
-              cases c.kernelErr with
-              | some e => rfl
-              | none =>
+  · simp only [hkr, Bool.false_eq_true, if_false]
+    -- floor division of operands of different dimensions falls back to the quotient rule
+    by_cases hfd : (rule == Rule.floorDivide && b0.v.dim != b1.v.dim) = true
+    · simp only [hfd, if_true]
+      have hchk : CheckSim (if Rule.rescales Rule.divide = true then commensurate C Rule.divide c.ufunc i0 i1 a0 a1 else Check.pass a0 a1 false)
+          (if Rule.rescales Rule.divide = true then commensurate C Rule.divide c.ufunc j0 j1 b0 b1 else Check.pass b0 b1 false) := by
+        by_cases hck : Rule.rescales Rule.divide = true
+        · simp only [hck, if_true]; exact commensurate_rsim C hb Rule.divide c.ufunc i0 j0 i1 j1 hi0 hi1 h0 h1
+        · simp only [hck, if_false]; exact ⟨h0, h1, rfl⟩
+      revert hchk
+      generalize (if Rule.rescales Rule.divide = true then commensurate C Rule.divide c.ufunc i0 i1 a0 a1 else Check.pass a0 a1 false) = chkA
+      generalize (if Rule.rescales Rule.divide = true then commensurate C Rule.divide c.ufunc j0 j1 b0 b1 else Check.pass b0 b1 false) = chkB
+      intro hchk
+      cases chkA with
+      | refuse =>
+        cases chkB with
+        | refuse => rfl
+        | early y => simp [CheckSim] at hchk
+        | pass _ _ _ => simp [CheckSim] at hchk
+      | early x =>
+        cases chkB with
+        | early y => simp only [CheckSim] at hchk; subst hchk; simp only [hc, Bool.false_eq_true, if_false]
+        | pass _ _ _ => simp [CheckSim] at hchk
+        | refuse => simp [CheckSim] at hchk
+      | pass x0 x1 cv =>
+        cases chkB with
+        | early y => simp [CheckSim] at hchk
+        | refuse => simp [CheckSim] at hchk
+        | pass y0 y1 cv' =>
+          obtain ⟨g0, g1, gc⟩ := hchk
+          subst gc
+          have hcs := convertSecond_rsim C Rule.divide j1.data g0 g1
+          simp only [hi1.2.2, hcs, Bool.false_eq_true, if_false]
+          cases hcv : (if cv = true then Except.map some (convertSecond C Rule.divide y0 y1 j1.data) else Except.ok none) with
+          | error e => rfl
+          | ok cvo =>
+            simp only
+            have hr := applyRule2_rsim C hb Rule.divide g0 g1
+            cases ha : applyRule2 C Rule.divide x0 x1 with
+            | error e1 =>
+              cases hbb : applyRule2 C Rule.divide y0 y1 with
+              | error e2 => simp [ha, hbb, Except.map] at hr; simp [hr]
+              | ok p2 => simp [ha, hbb, Except.map] at hr
+            | ok p1 =>
+              cases hbb : applyRule2 C Rule.divide y0 y1 with
+              | error e2 => simp [ha, hbb, Except.map] at hr
+              | ok p2 =>
+                obtain ⟨m1, ua⟩ := p1
+                obtain ⟨m2, ub⟩ := p2
+                simp only [ha, hbb, Except.map, stripP, Except.ok.injEq, Prod.mk.injEq] at hr
+                obtain ⟨hm, hun⟩ := hr
+                subst hm
                 simp only
-                have hp := mulDivPost_rsim rule m1 g0 g1 ua ub hun
-                cases hpa : mulDivPost rule x0 x1 m1 ua with
-                | error e1 =>
-                  cases hpb : mulDivPost rule y0 y1 m1 ub with
-                  | error e2 => simp [hpa, hpb, Except.map] at hp; simp [hp]
-                  | ok q2 => simp [hpa, hpb, Except.map] at hp
-                | ok q1 =>
-                  cases hpb : mulDivPost rule y0 y1 m1 ub with
-                  | error e2 => simp [hpa, hpb, Except.map] at hp
-                  | ok q2 =>
-                    obtain ⟨n1, va⟩ := q1
-                    obtain ⟨n2, vb⟩ := q2
-                    simp only [hpa, hpb, Except.map, stripP, Except.ok.injEq, Prod.mk.injEq] at hp
-                    obtain ⟨hn, hvn⟩ := hp
-                    subst hn
-                    have hu1 : i0.isUnyt = true := by rw [hi0.1]; exact hu0
-                    simp only [hu1, hu0, Bool.not_true, Bool.false_and,
-                      wrapUp_none_result' C.T _ c hc, Except.map, stripO, hvn]
+                cases c.kernelErr with
+                | some e => rfl
+                | none =>
+                  simp only
+                  have hp := mulDivPost_rsim Rule.divide m1 g0 g1 ua ub hun
+                  cases hpa : mulDivPost Rule.divide x0 x1 m1 ua with
+                  | error e1 =>
+                    cases hpb : mulDivPost Rule.divide y0 y1 m1 ub with
+                    | error e2 => simp [hpa, hpb, Except.map] at hp; simp [hp]
+                    | ok q2 => simp [hpa, hpb, Except.map] at hp
+                  | ok q1 =>
+                    cases hpb : mulDivPost Rule.divide y0 y1 m1 ub with
+                    | error e2 => simp [hpa, hpb, Except.map] at hp
+                    | ok q2 =>
+                      obtain ⟨n1, va⟩ := q1
+                      obtain ⟨n2, vb⟩ := q2
+                      simp only [hpa, hpb, Except.map, stripP, Except.ok.injEq, Prod.mk.injEq] at hp
+                      obtain ⟨hn, hvn⟩ := hp
+                      subst hn
+                      have hu1 : i0.isUnyt = true := by rw [hi0.2.1]; exact hu0
+                      simp only [hu1, hu0, Bool.not_true, Bool.false_and,
+                        wrapUp_none_result' C.T _ c hc, Except.map, stripO, hvn]
+    · simp only [hfd, Bool.false_eq_true, if_false]
+      have hchk : CheckSim (if Rule.rescales rule = true then commensurate C rule c.ufunc i0 i1 a0 a1 else Check.pass a0 a1 false)
+          (if Rule.rescales rule = true then commensurate C rule c.ufunc j0 j1 b0 b1 else Check.pass b0 b1 false) := by
+        by_cases hck : Rule.rescales rule = true
+        · simp only [hck, if_true]; exact commensurate_rsim C hb rule c.ufunc i0 j0 i1 j1 hi0 hi1 h0 h1
+        · simp only [hck, if_false]; exact ⟨h0, h1, rfl⟩
+      revert hchk
+      generalize (if Rule.rescales rule = true then commensurate C rule c.ufunc i0 i1 a0 a1 else Check.pass a0 a1 false) = chkA
+      generalize (if Rule.rescales rule = true then commensurate C rule c.ufunc j0 j1 b0 b1 else Check.pass b0 b1 false) = chkB
+      intro hchk
+      cases chkA with
+      | refuse =>
+        cases chkB with
+        | refuse => rfl
+        | early y => simp [CheckSim] at hchk
+        | pass _ _ _ => simp [CheckSim] at hchk
+      | early x =>
+        cases chkB with
+        | early y => simp only [CheckSim] at hchk; subst hchk; simp only [hc, Bool.false_eq_true, if_false]
+        | pass _ _ _ => simp [CheckSim] at hchk
+        | refuse => simp [CheckSim] at hchk
+      | pass x0 x1 cv =>
+        cases chkB with
+        | early y => simp [CheckSim] at hchk
+        | refuse => simp [CheckSim] at hchk
+        | pass y0 y1 cv' =>
+          obtain ⟨g0, g1, gc⟩ := hchk
+          subst gc
+          have hcs := convertSecond_rsim C rule j1.data g0 g1
+          simp only [hi1.2.2, hcs, Bool.false_eq_true, if_false]
+          cases hcv : (if cv = true then Except.map some (convertSecond C rule y0 y1 j1.data) else Except.ok none) with
+          | error e => rfl
+          | ok cvo =>
+            simp only
+            have hr := applyRule2_rsim C hb rule g0 g1
+            cases ha : applyRule2 C rule x0 x1 with
+            | error e1 =>
+              cases hbb : applyRule2 C rule y0 y1 with
+              | error e2 => simp [ha, hbb, Except.map] at hr; simp [hr]
+              | ok p2 => simp [ha, hbb, Except.map] at hr
+            | ok p1 =>
+              cases hbb : applyRule2 C rule y0 y1 with
+              | error e2 => simp [ha, hbb, Except.map] at hr
+              | ok p2 =>
+                obtain ⟨m1, ua⟩ := p1
+                obtain ⟨m2, ub⟩ := p2
+                simp only [ha, hbb, Except.map, stripP, Except.ok.injEq, Prod.mk.injEq] at hr
+                obtain ⟨hm, hun⟩ := hr
+                subst hm
+                simp only
+                cases c.kernelErr with
+                | some e => rfl
+                | none =>
+                  simp only
+                  have hp := mulDivPost_rsim rule m1 g0 g1 ua ub hun
+                  cases hpa : mulDivPost rule x0 x1 m1 ua with
+                  | error e1 =>
+                    cases hpb : mulDivPost rule y0 y1 m1 ub with
+                    | error e2 => simp [hpa, hpb, Except.map] at hp; simp [hp]
+                    | ok q2 => simp [hpa, hpb, Except.map] at hp
+                  | ok q1 =>
+                    cases hpb : mulDivPost rule y0 y1 m1 ub with
+                    | error e2 => simp [hpa, hpb, Except.map] at hp
+                    | ok q2 =>
+                      obtain ⟨n1, va⟩ := q1
+                      obtain ⟨n2, vb⟩ := q2
+                      simp only [hpa, hpb, Except.map, stripP, Except.ok.injEq, Prod.mk.injEq] at hp
+                      obtain ⟨hn, hvn⟩ := hp
+                      subst hn
+                      have hu1 : i0.isUnyt = true := by rw [hi0.2.1]; exact hu0
+                      simp only [hu1, hu0, Bool.not_true, Bool.false_and,
+                        wrapUp_none_result' C.T _ c hc, Except.map, stripO, hvn]
 
 theorem pow_rsim {a b : UnitR K} (h : RSim a b) (p : Rat) : UnitV.pow a.v p = UnitV.pow b.v p := by
   obtain ⟨_, d0, o0, s0, e0, _, _, l0, _⟩ := rsim_facts h
   simp only [UnitV.pow, d0, o0, s0, e0, l0]
 
 theorem powerPath_rsim (C : Ufunc.Ctx K) (c : Call K) (hc : c.out = .none)
-    (i0 j0 i1 j1 : Operand K) (hi0 : i0.isUnyt = j0.isUnyt ∧ i0.data = j0.data)
-    (hi1 : i1.isUnyt = j1.isUnyt ∧ i1.data = j1.data) (hu0 : j0.isUnyt = true)
+    (i0 j0 i1 j1 : Operand K) (hi0 : OpSim i0 j0) (hi1 : OpSim i1 j1) (hu0 : j0.isUnyt = true)
     {a0 b0 a1 b1 : UnitR K} (h0 : RSim a0 b0) (h1 : RSim a1 b1) (eff : List (Effect K)) :
     (powerPath C c i0 i1 (some a0) (some a1) eff).result.map stripO
       = (powerPath C c j0 j1 (some b0) (some b1) eff).result.map stripO := by
   obtain ⟨_, d0, _⟩ := rsim_facts h0
   obtain ⟨_, d1, _⟩ := rsim_facts h1
-  have hu1 : i0.isUnyt = true := by rw [hi0.1]; exact hu0
-  simp only [powerPath, defaultUnit, UnitV.isDimensionless, d0, d1, hi0.2, hi1.2, pow_rsim h0, hu1, hu0,
+  have hu1 : i0.isUnyt = true := by rw [hi0.2.1]; exact hu0
+  simp only [powerPath, defaultUnit, UnitV.isDimensionless, d0, d1, hi0.2.2, hi1.2.2, pow_rsim h0, hu1, hu0,
     Bool.not_true, Bool.false_and]
   rfl
 
@@ -326,10 +404,10 @@ theorem binaryPath_rsim (C : Ufunc.Ctx K) (hb : UeqBlind C) (c : Call K) (hc : c
       = (binaryPath C c (.unyt cls0 b0 d0) (.unyt cls1 b1 d1) eff).result.map stripO := by
   simp only [binaryPath, coerce, unitsOf]
   split
-  · exact powerPath_rsim C c hc _ _ _ _ ⟨rfl, rfl⟩ ⟨rfl, rfl⟩ rfl h0 h1 eff
+  · exact powerPath_rsim C c hc _ _ _ _ ⟨rfl, rfl, rfl⟩ ⟨rfl, rfl, rfl⟩ rfl h0 h1 eff
   · cases C.T.ruleOf c.ufunc with
     | none => rfl
-    | some rule => exact stdBinary_rsim C hb c hc rule _ _ _ _ ⟨rfl, rfl⟩ ⟨rfl, rfl⟩ rfl h0 h1 eff
+    | some rule => exact stdBinary_rsim C hb c hc rule _ _ _ _ ⟨rfl, rfl, rfl⟩ ⟨rfl, rfl, rfl⟩ rfl h0 h1 eff
 
 theorem rsim_lose (u : UnitV K) (rp : String) (h : Dim.isBase3 u.dim = false) :
     RSim (⟨{ u with canon := false }, rp⟩ : UnitR K) ⟨u, rp⟩ := Or.inr ⟨h, false, rfl⟩
